@@ -161,6 +161,7 @@ type classifier struct {
 	canaries map[string]int
 	keys     []keyCand
 	si       []saltInfo
+	extra    []string // further texts an HMAC may have been computed over (renderings of non-string values a tag names)
 }
 
 func (c *classifier) classify(s string) string {
@@ -184,7 +185,7 @@ func (c *classifier) classify(s string) string {
 		}
 		return "(Enc 0%N Opaque)"
 	case strings.HasPrefix(s, "hmac-sha256:"):
-		texts := []string{"[REDACTED]", ""}
+		texts := append([]string{"[REDACTED]", ""}, c.extra...)
 		for t := range c.canaries {
 			texts = append(texts, t)
 		}
